@@ -143,3 +143,14 @@ Example C01_nonvacuous :
   /\ snd (step (run [ONew 7; OAdd 0 [ex_t1]; ODrop 7; ONew 7]) (OList 1)) = RTriples []
   /\ snd (step (run [ONew 7; OAdd 0 [ex_t1]; ODrop 7; ONew 7]) (OList 0)) = RTriples [ex_t1].
 Proof. vm_compute. repeat split. Qed.
+
+(* ---- history independence: the existence test and the full listing of a graph object depend only on the set it
+        holds (the rank hypothesis says that the order of Triple.String() identifies the stored triple) ------------- *)
+Theorem C01_history_independent : forall ops1 ops2 h1 h2 g1 g2,
+  graph_of (run ops1) h1 = Some g1 -> graph_of (run ops2) h2 = Some g2 ->
+  (forall k, aget tkey_eqb k (idx g1) = aget tkey_eqb k (idx g2)) ->
+  (forall a b, In a (listing g1) -> In b (listing g1) -> trank a = trank b -> a = b) ->
+  (forall t, snd (step (run ops1) (OExist h1 t)) = snd (step (run ops2) (OExist h2 t))) /\
+  snd (step (run ops1) (OList h1)) = snd (step (run ops2) (OList h2)).
+Proof. exact observers_history_independent. Qed.
+Print Assumptions C01_history_independent.
